@@ -295,9 +295,19 @@ func c04RunConc(c *mon.Ctx, seed uint64) {
 
 	var jobs []func() string
 
+	var (
+		p gen.PV
+		e *secp256k1.Element
+	)
+
 	for i := 0; i < concJobs; i++ {
-		p := gen.Fresh(r)
-		e := mon.Elem(p.P, gen.DrawRepr(r, false))
+		// every second job serialises the SAME element object as the job before it (read-only methods only)
+		if i%2 == 0 {
+			p = gen.Fresh(r)
+			e = mon.Elem(p.P, gen.DrawRepr(r, false))
+		}
+
+		p, e := p, e
 		wc, wu := oracle.EncC(p.P), oracle.EncU(p.P)
 		jobs = append(jobs, func() string {
 			if got := e.Encode(); !bytes.Equal(got, wc) {
